@@ -9,6 +9,7 @@ SM3 = "precondition/sm3.py"
 DS = "precondition/distributed_shampoo.py"
 
 OCO = "precondition/oco/algorithms.py"
+OCOT = "precondition/oco/train.py"
 
 TFS = "precondition/tearfree/shampoo.py"
 TFK = "precondition/tearfree/sketchy.py"
@@ -169,6 +170,10 @@ MUTANTS = [
     dict(id="c16_ada_abs", property="C16", edits=[(OCO, "state['diag_h'] = state['diag_h'] + grad**2", "state['diag_h'] = state['diag_h'] + jnp.abs(grad)")]),
     dict(id="c16_row0_replaced", property="C16", edits=[(OCO, "B = B.at[-1].set(grad_input)", "B = B.at[0].set(grad_input)")],
          note="new gradient overwrites the top sketch row instead of the empty last row"),
+    dict(id="c16_train_row_index_restarts", property="C16", edits=[(OCOT, "    ix = state['n']", "    ix = idx")],
+         note="training loop reads the row at the fori_loop index, which restarts at 0 in every observation chunk"),
+    dict(id="c16_train_chunks_not_prepended", property="C16", edits=[(OCOT, "chunks = jnp.diff(obs_ixs, prepend=0)", "chunks = jnp.diff(obs_ixs, append=obs_ixs[-1])")],
+         note="history entry i is taken after obs_ixs[i+1] rows instead of obs_ixs[i]"),
     dict(id="c16_no_deflation", property="C16", edits=[(OCO, "s = (s - rho) * (s + rho)", "s = s * s")]),
     dict(id="c16_alpha_rho_not_squared", property="C16", edits=[(OCO, "state['alpha'] += alpha_update_factor * rho**2", "state['alpha'] += alpha_update_factor * rho")]),
     dict(id="c16_sada_reciprocal", property="C16", edits=[(OCO, "  lr = hparams.lr\n  eig_inversion = jax.lax.rsqrt", "  lr = hparams.lr\n  eig_inversion = jnp.reciprocal")]),
